@@ -31,7 +31,7 @@ class Trial:
         self.rng = random.Random(seed)
         self.arr = Array(binary, nd=nd, np_=np_, zmode=z, hashsize=hs, ncontent=nc)
         self.recipe = populate(self.arr, self.rng, nf)
-        r = self.arr.run('sync')
+        r = self.arr.run('sync', '--test-force-murmur3')
         self.ok = (r.rc == 0)
         self.ntrials = self.nmodel = self.nblocks_damaged = 0
         self.samples = []
